@@ -48,6 +48,16 @@ Theorem C04_index_reencode : forall (d : digest) (b : bytes) (i : index),
 Proof. exact index_reencode. Qed.
 Print Assumptions C04_index_reencode.
 
+(* The same with "canonical" judged by the independent reader: a file of real bytes that
+   IndexFromReader accepts and that [parse_layout] reads at the fixed caibx offsets (exact length
+   104+40k, k non-zero end offsets, tail 0,0,..,..,marker) with tail fields (48, length-48) is
+   reproduced byte for byte -- this is what the casync-made testdata files are checked against. *)
+Theorem C04_index_reencode_layout : forall (d : digest) (b : bytes) (i : index) (l : layout),
+  wf_bytes b -> decode_index d b = Ok i -> parse_layout b = Some l -> canonical_tail b l = true ->
+  encode_index i = b.
+Proof. exact index_reencode_layout. Qed.
+Print Assumptions C04_index_reencode_layout.
+
 (* Truncation: every strict prefix of ANY file that IndexFromReader accepts and reads to its last
    byte is rejected ... *)
 Theorem C04_index_rejects_prefix_of_accepted : forall (d : digest) (b : bytes) (i : index),
